@@ -21,6 +21,9 @@ func VerifC02VerdictIndependentOfNodeLocalState() {
 	c2 := *c
 	f2 := *c.frontier
 	f2.id = types.HashHeight{Hash: c03Hash("frontier2.Hash"), Height: verifNondetU64("frontier2.Height")}
+	// everything the second node's frontier store holds is node-local too: independent lazily drawn contents
+	f2.blocks = map[types.Hash]*nom.AccountBlock{}
+	f2.confirm = map[types.Hash]uint64{}
 	c2.frontier = &f2
 	av2 := &accountVerifier{chain: &c2}
 	err2, _ := c03Run(func() error { return av2.AccountBlock(b) })
